@@ -306,13 +306,12 @@ def qr_find_scp(asce, ctx, msg):
     ds = dsutils.decode(msg.data_set, ctx.supported_ts.is_implicit_VR,
                         ctx.supported_ts.is_little_endian)
 
-    # make response
-    rsp = dimsemessages.CFindRSPMessage()
-    rsp.message_id_being_responded_to = msg.message_id
-    rsp.sop_class_uid = msg.sop_class_uid
-
     gen = asce.ae.on_receive_find(ctx, ds)
     for data_set, status in gen:
+        # new message for every response: it is encoded later, by DUL service thread
+        rsp = dimsemessages.CFindRSPMessage()
+        rsp.message_id_being_responded_to = msg.message_id
+        rsp.sop_class_uid = msg.sop_class_uid
         rsp.status = int(status)
         rsp.data_set = dsutils.encode(data_set,
                                       ctx.supported_ts.is_implicit_VR,
@@ -444,10 +443,6 @@ def qr_move_scp(asce, ctx, msg):
     ds = dsutils.decode(msg.data_set, ctx.supported_ts.is_implicit_VR,
                         ctx.supported_ts.is_little_endian)
 
-    # make response
-    rsp = dimsemessages.CMoveRSPMessage()
-    rsp.message_id_being_responded_to = msg.message_id
-    rsp.sop_class_uid = msg.sop_class_uid
     remote_ae, nop, gen = asce.ae.on_receive_move(ctx, ds, msg.move_destination)
     if not nop:
         # nothing to move
@@ -467,6 +462,11 @@ def qr_move_scp(asce, ctx, msg):
             if status.is_warning:
                 warning += 1
             completed += 1
+
+            # new message for every response: it is encoded later, by DUL service thread
+            rsp = dimsemessages.CMoveRSPMessage()
+            rsp.message_id_being_responded_to = msg.message_id
+            rsp.sop_class_uid = msg.sop_class_uid
             rsp.status = int(statuses.C_MOVE_PENDING)
             rsp.num_of_remaining_sub_ops = nop - completed
             rsp.num_of_completed_sub_ops = completed
